@@ -386,21 +386,25 @@ func c18Run(k c18Case, st *c18Stats) (int, string) {
 				}
 			case "Value":
 				if k.Block {
-					// only padding-free segments inside one padding-free line are specified to equal the segment's own value
+					// segments inside one line: a segment that starts at the head of the line carries the line's padding
+					// (the form PeekLine returns), a segment that starts later has none; both must equal the segment's own value
 					if len(lines) == 0 {
 						name = ""
 						return
 					}
 					ln := lines[o.Arg%len(lines)]
-					if ln.Padding != 0 || ln.Stop-ln.Start == 0 {
+					if ln.Stop-ln.Start == 0 {
 						name = ""
 						return
 					}
 					a := ln.Start + o.Arg2%(ln.Stop-ln.Start)
 					b := a + (o.Arg2/7)%(ln.Stop-a+1)
 					seg := text.NewSegment(a, b)
-					if g, w := rd.Value(seg), src[a:b]; !bytes.Equal(g, w) {
-						desc = fmt.Sprintf("Value(%+v) = %q, want %q", seg, g, w)
+					if a == ln.Start {
+						seg.Padding = ln.Padding
+					}
+					if g, w := rd.Value(seg), segValue(seg, src); !bytes.Equal(g, w) {
+						desc = fmt.Sprintf("Value(%+v) in line %+v = %q, want %q", seg, ln, g, w)
 					}
 					return
 				}
